@@ -99,8 +99,7 @@ def observed_class(obs, d, enum_vals=None):
         return "zero-value"
     if isinstance(e, dict) and isinstance(v, dict):
         bad = [k for k, x in e.items() if k not in v or not jincl(x, v[k])]
-        sub = sorted({observed_class(v, {"field": k, "value": e[k], "kind": "leaf"}) for k in bad})
-        return "override:" + "+".join(sub)
+        return "override-not-held"
     if enum_vals and v in enum_vals:
         return "another-enum-member"
     return "altered"
